@@ -30,7 +30,9 @@ import threading
 
 from hypothesis import strategies as st
 
-from vlib import hist, tools
+import time
+
+from vlib import faults, hist, tools
 from vlib.core import Check, Inconclusive, Violation, load_known
 
 STEMS = ["out", "libx.so", "a.b", "prog-1"]
@@ -73,6 +75,9 @@ def links_of(case):
         seen.add(name)
         l2 = dict(ln)
         l2["out"] = name
+        l2["share_save"] = bool(case.get("share_save"))
+        if l2["share_save"]:
+            l2["side"] = dict(l2["side"], save=True)    # constructed: every link of the history uses the bundle
         out.append(l2)
     return out
 
@@ -106,7 +111,7 @@ def side_paths(l, as_set=False):
         p["trace2"] = l["out"] + "..trace"  # linker_trace::trace_path for extension-less names
         p["trace3"] = hist.rust_with_extension(l["out"], (os.path.splitext(l["out"])[1][1:] + ".trace"))
     if side["save"]:
-        p["save"] = "save-" + l["out"]
+        p["save"] = "save-shared" if l.get("share_save") else "save-" + l["out"]
     return set(p.values()) if as_set else p
 
 
@@ -219,6 +224,9 @@ class C19(Check):
             "links": st.builds(lambda n, a, b, c: [a, b, c][:n], st.sampled_from([1, 2, 2, 3]), link, link, link),
             "siblings": st.lists(sib, min_size=0, max_size=6),
             "strace": st.sampled_from([False, False, True, False, False]),
+            # every link that requests a save directory uses the same one (concurrent builds of variants of
+            # one target into a common bundle directory): the bundle is shared, the inputs must survive
+            "share_save": st.sampled_from([False, False, True]),
             "nfill": st.integers(0, 2),
         })
 
@@ -335,6 +343,31 @@ class C19(Check):
         meta = os.path.join(ctx.dir, "m")
         os.makedirs(meta)
 
+        # Links that share one save directory: the harness owns the schedule.  Every such link is paused when it
+        # opens its first input (after argument parsing, where the save directory is wiped and re-created, and
+        # before the bundle is written); once all are there they are released one after the other, so each later
+        # link writes its bundle into a directory that already holds the earlier ones' files.
+        pauses = {}
+        savers = [i for i, (l, _, _) in enumerate(cmds) if "save" in side_paths(l)]
+        if case.get("share_save") and len(savers) >= 2 and not case["strace"]:
+            for i in savers:
+                pd = os.path.join(meta, f"p{i}")
+                os.makedirs(pd)
+                pauses[i] = faults.Pause(pd, "opened=main.o")
+                cmds[i][2].update(pauses[i].env())
+
+        def coordinate():
+            for p in pauses.values():
+                p.wait_paused(timeout=30)
+            for p in pauses.values():
+                p.release()
+                try:
+                    # the point can be reached again (the same file is opened more than once): never block there
+                    os.write(p.wfd, b"g" * 256)
+                except (OSError, TypeError):
+                    pass
+                time.sleep(0.4)
+
         def run(i):
             l, args, env = cmds[i]
             try:
@@ -354,10 +387,14 @@ class C19(Check):
                 errors.append(e)
 
         ths = [threading.Thread(target=run, args=(i,)) for i in range(len(cmds))]
+        if pauses:
+            ths.append(threading.Thread(target=coordinate))
         for t in ths:
             t.start()
         for t in ths:
             t.join()
+        for p in pauses.values():
+            p.close()
         if errors:
             e = errors[0]
             raise e if isinstance(e, Inconclusive) else Inconclusive(f"runner failed: {e!r}")
@@ -442,6 +479,8 @@ class C19(Check):
         stem_sibs = [n for n in sibs if n.startswith(case["stem"]) or n.startswith("." + case["stem"])]
         any_prior = any(l["prior"] != "absent" for l in links)
         info["classes"].append(f"nlinks:{len(links)}")
+        if case.get("share_save") and sum(1 for l in links if "save" in side_paths(l)) >= 2:
+            info["classes"].append("concurrent-links-share-save-dir" + (":scheduled" if pauses else ""))
         info["nontrivial"] = bool((stem_sibs and any_prior) or len(links) >= 2)
         info["key"] = case["stem"] + "|" + ";".join(
             f"{l['out']},{l['mode']},{'t1' if l['threads'] == 1 else 'tN'},{l['prior']},{int(l['shared'])},"
